@@ -237,6 +237,26 @@ func runEqualsFieldCoverage(rr *RuleRun) {
 			}
 			return true
 		})
+		// a condition that looks at a field of one side only decides differently when the operands are swapped
+		ast.Inspect(fd.Body, func(n ast.Node) bool {
+			is, ok := n.(*ast.IfStmt)
+			if !ok {
+				return true
+			}
+			sides := map[types.Object]bool{}
+			ast.Inspect(is.Cond, func(m ast.Node) bool {
+				if se, ok := m.(*ast.SelectorExpr); ok {
+					if o := objOf(info, se.X); (o == recvObj || o == asserted) && fieldType(st, se.Sel.Name) != nil {
+						sides[o] = true
+					}
+				}
+				return true
+			})
+			if len(sides) == 1 {
+				problems = append(problems, fmt.Sprintf("the condition '%s' consults a field of one operand only: swapping the operands can change the answer, so equality is not symmetric", trunc(exprStr(is.Cond), 50)))
+			}
+			return true
+		})
 		for _, f := range fields {
 			if !reads[f][recvObj] || !reads[f][asserted] {
 				problems = append(problems, fmt.Sprintf("field %s is not compared between the receiver and the other type", f))
